@@ -121,7 +121,7 @@ def run(ctx):
             payload["hypothesis"] = "traceAdmissible (changed_sorted_bounded_partial)"
             ctx.violation("corr", "a call of the port to ts_range_array_add is not admissible (hypothesis of changed_sorted_bounded_partial): " + kv.get("mono", ""),
                           payload, fingerprint={"lang": lang, "corr": "shape"}, found_input=False)
-    ctx.oblige("corr:ranges-functions=C", f_bad == 0 and f_cmp > 0, "%d/%d disagreements" % (f_bad, f_cmp))
+    ctx.oblige("corr:ranges-functions=C", f_bad == 0 and (f_cmp > 0 or bool(ctx.replay)), "%d/%d disagreements" % (f_bad, f_cmp))
     ctx.oblige("corr:treeChangedRanges=ts_tree_get_changed_ranges", corr_bad == 0, "%d disagreements" % corr_bad)
     ctx.coverage.update({
         "evaluations": evals, "distinct_nontrivial": len(distinct),
